@@ -7,7 +7,6 @@ package cpusuppress
 
 import (
 	"fmt"
-	"hash/fnv"
 
 	corev1 "k8s.io/api/core/v1"
 	"k8s.io/apimachinery/pkg/api/resource"
@@ -135,7 +134,6 @@ func c10BudExact(c *c10BudCase) int64 {
 
 func c10RunBudgetPart(env *mc.Env) {
 	res := mc.NewResult("C10", "budget", "enumeration")
-	ds := mc.NewDistinctSet()
 	f := c10NewBudFixture()
 	m0, m25 := int64(0), int64(25)
 	mins := []*int64{nil, &m0, &m25}
@@ -241,9 +239,6 @@ func c10RunBudgetPart(env *mc.Env) {
 		} else if c.Sys > rsv {
 			l.Count("system_usage_exceeds_reservation", 1)
 		}
-		h := fnv.New64a()
-		fmt.Fprint(h, d, got)
-		ds.AddHash(h.Sum64())
 		if i%300007 == 11 {
 			res.Sample(fmt.Sprintf("%+v min=%v -> %d milli (statement %d micro)", *c, c10PtrStr(c.Min), got, exact))
 		}
@@ -296,7 +291,7 @@ func c10RunBudgetPart(env *mc.Env) {
 	}
 	complete = complete && complete2
 	res.Traces = res.Evaluations
-	res.Distinct = ds.Len()
+	res.Distinct = res.Counters["formula_checked"] // every enumerated case is a distinct input by construction
 	res.Exhaustive = complete
 	if !complete {
 		res.Capped = fmt.Sprintf("time budget hit after %d of %d cases", done, rx.Size())
